@@ -83,12 +83,19 @@ impl CollisionTask<'_> {
             // if similarly simplified            
             let am_aaabb = sm_shape.local_aabb().loosened(r_min);
             let sm_abb_mesh = build_trimesh_from_aabb(am_aaabb);
+            // The meshes are surfaces: an object that lies completely inside the enlarged box
+            // does not touch the box surface, yet it is closer than r_min. If the surfaces do not
+            // intersect, each connected part of the object is either inside or outside the box,
+            // so looking for any vertex inside the box detects this case.
+            let bg_in_sm = sm_transform.inv_mul(bg_transform);
+            let inside_enlarged_box = || bg_shape.vertices().iter().any(
+                |v| am_aaabb.contains_local_point(&bg_in_sm.transform_point(v)));
             if !parry3d::query::intersection_test(
                 sm_transform,
                 &sm_abb_mesh,
                 bg_transform,
                 bg_shape,
-            ).expect(SUPPORTED) {
+            ).expect(SUPPORTED) && !inside_enlarged_box() {
                 #[cfg(feature = "verif_hooks")]
                 crate::verif_hooks::emit("collision_prefilter_reject", &[self.i as f64, self.j as f64]);
                 false
